@@ -1,1 +1,6 @@
-//! harness crate vh_enc
+//! harness crate vh_enc: value pool, strict JSON reader, OTLP projection and the
+//! image-driven comparison used by the C13 (sinks) and C19 (capture) replays.
+pub mod cv;
+pub mod expect;
+pub mod json;
+pub mod otlp;
